@@ -522,9 +522,60 @@ func (p c05) nestedUnion(c *core.Ctx) {
 	}
 }
 
+var c05Decimals *meta.Module
+
+// fractionDigits: a decimal64 with no more digits after the point than its type has is a value of the type however large it
+// is before the point; one digit more is not
+func (p c05) fractionDigits(c *core.Ctx) {
+	if c05Decimals == nil {
+		m, err := parser.LoadModuleFromString(nil, `module fd { namespace "urn:fd"; prefix fd; revision 2020-01-01;
+  leaf d4 { type decimal64 { fraction-digits 4; } } leaf d2 { type decimal64 { fraction-digits 2; } } leaf d1 { type decimal64 { fraction-digits 1; } } leaf-list l3 { type decimal64 { fraction-digits 3; } } }`)
+		if err != nil {
+			c.Violate("harness/fraction-digits-module", "%v", err)
+			return
+		}
+		c05Decimals = m
+	}
+	for _, tc := range []struct {
+		leaf, text string
+		want       bool
+	}{{"d4", "97964648.165", true}, {"d4", "10943301.9687", true}, {"d4", "0.0001", true}, {"d4", "123456789012.1234", true}, {"d4", "1.99999", false}, {"d4", "0.12345", false}, {"d4", "97964648.16501", false},
+		{"d2", "17894603384501.85", true}, {"d2", "0.01", true}, {"d2", "-99999999999.99", true}, {"d2", "1.999", false}, {"d2", "17894603384.855", false},
+		{"d1", "922337203685477.5", true}, {"d1", "0.25", false}, {"l3", "4503599627370.125", true}, {"l3", "1.0005", false}} {
+		doc := fmt.Sprintf(`{"%s":%s}`, tc.leaf, tc.text)
+		if tc.leaf == "l3" {
+			doc = fmt.Sprintf(`{"l3":[0.5,%s]}`, tc.text)
+		}
+		c.Eval()
+		c.Shape("fraction-digits/%s/%v", tc.leaf, tc.want)
+		data := map[string]interface{}{}
+		var err error
+		if c.Guard("fraction digits", func() {
+			n, e := nodeutil.ReadJSON(doc)
+			if e != nil {
+				err = e
+				return
+			}
+			err = node.NewBrowser(c05Decimals, nodeutil.ReflectChild(data)).Root().UpsertFrom(n)
+		}) {
+			continue
+		}
+		if (err == nil) != tc.want {
+			cls := "accepted-outside"
+			if tc.want {
+				cls = "rejected-inside"
+			}
+			c.Violate(cls+"/decimal64/fraction-digits-directed", "%s: accepted=%v (%v), want %v\nstored: %v", doc, err == nil, err, tc.want, data)
+		}
+	}
+}
+
 func (p c05) Run(c *core.Ctx, idx int) {
 	if idx%40 == 7 {
 		p.nestedUnion(c)
+	}
+	if idx%40 == 9 {
+		p.fractionDigits(c)
 	}
 	t := genC05Type(c, idx)
 	tds, leafType := t.yang()
